@@ -8,6 +8,7 @@
 -/
 import Absnfs.ServerData
 import Absnfs.ServerData2
+import Absnfs.ServerData3
 import Absnfs.ServerCreate
 import Absnfs.ServerReadOnly
 import Gen.Facts
@@ -66,6 +67,22 @@ theorem bytes_after_truncate (d : Bytes) (n i : Nat) :
     (Fs.truncBytes d n).getD i 0 = if i < n then d.getD i 0 else 0 := Fs.truncBytes_getD d n i
 
 theorem size_after_truncate (d : Bytes) (n : Nat) : (Fs.truncBytes d n).length = n := Fs.truncBytes_length d n
+
+/-- The property's headline, end to end over the two handlers, in every state satisfying the server invariant
+    (hence after every history, under every cache setting): a WRITE acknowledged with count k > 0, then a READ of
+    the same handle, offset and count — from any caller, at any later time with nothing in between — returns
+    exactly the payload bytes the WRITE request carried, and reports their number. -/
+theorem read_after_write (s s1 s2 : St) (c c' : Ctx) (wargs rargs : Bytes) (w : Rfc.Wcc) (k com : Nat) (verf : Bytes)
+    (o : Option Rfc.Fattr) (cntR : Nat) (eof : Bool) (rdata : Bytes) (hinv : CInv s)
+    (hw : procWrite s c wargs = (s1, .res ⟨0, .writeOk w k com verf⟩))
+    (hr : procRead s1 c' rargs = (s2, .res ⟨0, .readOk o cntR eof rdata⟩))
+    (hd off : Nat) (w1 w2 q1 q2 q3 : Bytes)
+    (hw1 : decFh' s wargs = some (hd, w1)) (hw2 : decU64 w1 = some (off, w2))
+    (hr1 : decFh' s1 rargs = some (hd, q1)) (hr2 : decU64 q1 = some (off, q2)) (hr3 : decU32 q2 = some (k, q3))
+    (hk : 0 < k) :
+    ∀ (cnt stable dlen : Nat) (r3 r4 r5 rest data : Bytes), decU32 w2 = some (cnt, r3) → decU32 r3 = some (stable, r4) →
+      decU32 r4 = some (dlen, r5) → take? cnt r5 = some (data, rest) → rdata = data ∧ cntR = data.length :=
+  Server.read_after_write s s1 s2 c c' wargs rargs w k com verf o cntR eof rdata hinv hw hr hd off w1 w2 q1 q2 q3 hw1 hw2 hr1 hr2 hr3 hk
 
 /-- SETATTR at handler level: an NFS3_OK reply to a SETATTR with an explicit size means the object the handle
     names now holds its old bytes cut or zero-extended to that size, and no other object's contents changed —
